@@ -185,7 +185,7 @@ Lemma fold_last f d prec lhs o cfg n ts3 :
   (MAX_DEPTH <? d + 1) = false -> (MAX_DEPTH <? ast_height (ABinary o lhs (ARef n))) = false ->
   no_postfix_head tbl ts3 -> cur_is_not ts3 = false -> (fst (cur_prec tbl ts3) <= 0)%Z ->
   parse_op_loop tbl tm (S (S (S (S f)))) d prec lhs (TOp o :: TRef n :: ts3) =
-  parse_op_loop tbl tm (S (S (S f))) (d + 1) prec (ABinary o lhs (ARef n)) ts3.
+  parse_op_loop tbl tm (S (S (S f))) d prec (ABinary o lhs (ARef n)) ts3.
 Proof.
   intros W L D H NP NN CP. pose proof W as (_ & R1 & P1). pose proof (bp_of _ _ W) as B.
   eapply loop_fold with (rhs := ARef n) (ts3 := ts3); try eassumption.
